@@ -1,22 +1,34 @@
 """C11 — the Lévy copulas are Lévy copulas: grounded, d-increasing, uniform margins (DESIGN.md §4 C11)."""
 from __future__ import annotations
 
+import copy
 import itertools
 import math
+import pickle
 import warnings
 
 import numpy as np
 
 from rpylib.distribution.levycopula import ClaytonCopula, IndependentComponentsCopula, DependentComponentsCopula
 from rpylib.model import levycopulamodel as lcm
+from rpylib.model import utils as model_utils
 
 from ..common import w, wl, close, fr
 
 RULE = ("copulas: Clayton (theta log-uniform in [0.2,5] or exactly 1; eta uniform in [0,1], dyadic, or an end point 0/1), "
         "independent, dependent; d in {2,3}; argument entries: random sign, magnitude log-uniform in [1e-4,1e4] or small dyadic, "
         "+-inf with probability ~0.15, 0 with probability ~0.05; rectangles: per coordinate two such values sorted, -inf / +inf ends, "
-        "a few degenerate finite sides; every sign pattern is forced in turn. non-trivial = at least one finite non-zero entry; "
-        "distinct = distinct (probe, copula parameters, vectors)")
+        "a few degenerate finite sides; every sign pattern is forced in turn. construction histories: about half of the copula objects of "
+        "EVERY probe (oracles and comparisons with M alike) are not built by the class constructor at the target parameters but reach them "
+        "through a second history - class constructor or model helper factory (create_clayton_copula with arguments or with its defaults, "
+        "create_independent_copula, create_dependent_copula) with other legal parameter values, 0-1 intermediate stations (theta and/or eta "
+        "assigned to other legal values, a rejected assignment theta <= 0, an evaluation of a sibling Clayton object with other parameters, a "
+        "deepcopy / pickle round trip, at most one public evaluation), then theta and eta assigned to the target values in either order (an "
+        "attribute already at its target is assigned or left alone); probe c11.history plays long histories (up to 3 stations, several "
+        "evaluations of __call__ / volume / margin / x_first_derivative / conditional distribution / inverse at every station, between the two "
+        "final assignments and 6-10 after them) and judges every evaluation against a freshly constructed object having the parameters assigned "
+        "so far, and against formula (7) in mpmath. non-trivial = at least one finite non-zero entry; "
+        "distinct = distinct (probe, copula parameters, history, vectors)")
 NOT_PROVED = [
     "d-increasing in d = 3 is a theorem for Clayton (abstract generator with the third-order property Slope3; Real.rpow for every theta > 0; "
     "the executable theta = 1 float model) on every box without a corner having three infinite entries, for the dependent copula on every box of "
@@ -27,12 +39,18 @@ NOT_PROVED = [
     "from Kallsen-Tankov (4.2) (known finding, negation witnesses proved in d = 2 and d = 3)",
     "Clayton for general theta: the theorems are about exact real arithmetic (Real.rpow, every theta > 0, eta in [0,1]) and rectangles without a corner having two infinite entries; "
     "the float evaluation abs(u)**(-theta), s**(-1/theta) is compared with mpmath, and the value at corners with two infinite entries (inf / NaN) is modelled exactly for theta = 1 only",
+    "construction histories (parameters assigned on a live object, helper factories, copies, sibling objects) are outside M and the theorems, "
+    "which are about the function of (theta, eta, u): they are covered by running every probe on such objects and by c11.history only",
     "the mixed derivative (x_first_derivative) is compared with M at theta = 1 and with mpmath partial derivatives of formula (7); no derivative is proved",
     "the conditional distribution being the xi-derivative of F(xi,x)-F(xi,-inf) is oracle-checked by finite differences only; its range [0,1], its "
     "monotonicity on x != 0 and its limits 0/1 are theorems (abstract powers; Real.rpow for every theta > 0; the executable theta = 1 model), as is "
     "the inverse identity; the value at x = 0 (the code divides by zero) is outside the theorems",
 ]
-ASSUMPTIONS = ["x_first_derivative is read as sign(prod u) * d^dF/du_1..du_d (what the code returns and what the property's "
+ASSUMPTIONS = ["a copula object stands for the copula of the values its public parameter attributes (theta, eta) hold at the moment of the "
+               "evaluation, whichever way they got there (constructor, helper factory, assignment on the live object: theta is a validated "
+               "read/write property, eta a public attribute); two objects with equal parameters whose values differ by more than 1e-12 "
+               "(relative; volumes: of the sum of the corner magnitudes) cannot both be that copula (c11.history)",
+               "x_first_derivative is read as sign(prod u) * d^dF/du_1..du_d (what the code returns and what the property's "
                "'times the product of its arguments' can only mean: the literal product u_1*...*u_d fails at every input)",
                "magnitudes are kept in [1e-4,1e4] so that abs(u)**(-theta) neither overflows nor underflows for theta <= 5"]
 TRUSTED = ["mpmath (50 digits) evaluation and differentiation of Tankov's formula (7) as independent oracle for general theta"]
@@ -61,11 +79,96 @@ def guarded(probe):
 
 # ------------------------------------------------------------------------------------------------ helpers
 def make(cd):
+    """the copula object of the descriptor `cd`.  Without cd["hist"]: the class constructor called with the target
+    parameters.  With cd["hist"]: the same copula reached through another construction history (see `play`)."""
+    if cd.get("hist"):
+        return play(cd)
     if cd["cop"] == "clayton":
         return ClaytonCopula(theta=cd["theta"], eta=cd["eta"])
     if cd["cop"] == "independent":
         return IndependentComponentsCopula()
     return DependentComponentsCopula()
+
+
+def construct(kind, helper, params=None):
+    """class constructor or model helper factory (rpylib.model.utils.create_*_copula); params None = the helper's defaults"""
+    if kind == "clayton":
+        if helper:
+            return model_utils.create_clayton_copula() if params is None else model_utils.create_clayton_copula(theta=params[0], eta=params[1])
+        return ClaytonCopula(theta=params[0], eta=params[1])
+    if kind == "independent":
+        return model_utils.create_independent_copula() if helper else IndependentComponentsCopula()
+    return model_utils.create_dependent_copula() if helper else DependentComponentsCopula()
+
+
+def evaluate(cop, st):
+    """one public evaluation of a copula object, st = [kind, args...]; always a float"""
+    k = st[0]
+    with np.errstate(all="ignore"), warnings.catch_warnings():
+        warnings.simplefilter("ignore")
+        if k == "call":
+            return float(cop(np.array(st[1], dtype=float)))
+        if k == "vol":
+            return float(lcm.volume(lambda u: cop(np.array(list(u), dtype=float)), st[1], st[2]))
+        if k == "margin":
+            return float(lcm.margin(cop, [st[1]], st[2])([st[3]]))
+        if k == "mixed":
+            return float(cop.x_first_derivative(np.array(st[1], dtype=float)))
+        if k == "cond":
+            return float(cop.conditional_distribution(st[1], np.array([st[2]], dtype=float))[0])
+        if k == "inv":
+            return float(cop.inverse_conditional_distribution(np.array(st[1]), np.array([st[2]]))[0])
+    raise ValueError(f"unknown evaluation {st!r}")
+
+
+EVALS = ("call", "vol", "margin", "mixed", "cond", "inv")
+
+
+def play(cd, on_eval=None):
+    """second construction history of the copula `cd` (hist = {"helper": bool, "init": [theta0, eta0] | "default" | None, "steps": [...]}):
+    the object is built by the class or by the model helper factory with OTHER legal parameter values, then public evaluations,
+    assignments of its public parameter attributes (theta: validated property, eta), rejected assignments (theta <= 0 raises
+    and must leave the object as it was), evaluations of a sibling object with other parameters living in the same process and
+    deepcopy / pickle round trips are interleaved; the generator ends every history with the assignments that bring the
+    attributes to the target values cd["theta"], cd["eta"].  on_eval(step, value, (theta, eta) assigned so far) is called at
+    every evaluation step."""
+    h = cd["hist"]
+    kind = cd["cop"]
+    cur = None
+    if kind == "clayton":
+        init = h.get("init")
+        cop = construct(kind, h.get("helper"), None if init == "default" else init)
+        cur = [float(cop.theta), float(cop.eta)] if init == "default" else list(init)
+    else:
+        cop = construct(kind, h.get("helper"))
+    for st in h["steps"]:
+        k = st[0]
+        if k == "set":
+            setattr(cop, st[1], st[2])
+            cur[0 if st[1] == "theta" else 1] = st[2]
+        elif k == "reject":
+            try:
+                cop.theta = st[1]
+            except ValueError:
+                pass
+            else:                       # not rejected: theta <= 0 is outside the property; put the legal value back
+                cop.theta = cur[0]
+        elif k == "sibling":
+            other = construct("clayton", st[1], st[2])
+            evaluate(other, st[3])
+            v = evaluate(cop, st[3])      # same arguments, right after the sibling: a value remembered per class / module shows here
+            evaluate(other, st[3])
+            if on_eval:
+                on_eval(st[3], v, tuple(cur) if cur else None)
+        elif k == "copy":
+            cop = copy.deepcopy(cop) if st[1] == "deepcopy" else pickle.loads(pickle.dumps(cop))
+        elif k in EVALS:
+            v = evaluate(cop, st)
+            if on_eval:
+                on_eval(st, v, tuple(cur) if cur else None)
+        else:
+            raise ValueError(f"unknown history step {st!r}")
+    return cop
 
 
 def call(cop, us):
@@ -161,6 +264,96 @@ def classify(cd, pts):
     return cls
 
 
+def draw_eval(rng, cd, params=None):
+    """one public evaluation step for a history; params = (theta, eta) the object has at that moment (Clayton)"""
+    kinds = ["call", "call", "vol", "margin"]
+    if cd["cop"] == "clayton":
+        kinds += ["mixed", "cond"] + (["inv"] if 0.0 < params[1] < 1.0 else [])
+    k = rng.choice(kinds)
+    d = rng.choice([2, 3])
+    if k == "call":
+        return ["call", [draw_val(rng) for _ in range(d)]]
+    if k == "vol":
+        a, b = draw_rect(rng, d)
+        return ["vol", a, b]
+    if k == "margin":
+        return ["margin", rng.randrange(d), d, draw_val(rng, p_zero=0)]
+    if k == "mixed":
+        m = math.exp(rng.uniform(math.log(1e-2), math.log(1e2)))
+        return ["mixed", [rng.choice([-1, 1]) * m * math.exp(rng.uniform(-2, 2)) for _ in range(d)]]
+    e = rng.choice([-1, 1]) * math.exp(rng.uniform(math.log(1e-2), math.log(1e2)))
+    if k == "cond":
+        return ["cond", e, rng.choice([-1, 1]) * abs(e) * math.exp(rng.uniform(-3, 3))]
+    return ["inv", e, rng.uniform(0.01, 0.99)]
+
+
+def draw_hist(rng, cd, long=False):
+    """a second construction history ending at the parameters of cd (see `play`).  short: 0-1 intermediate stations and at
+    most one evaluation per station (attached to the inputs of every other probe); long: up to 3 stations, several
+    evaluations at every station, between the two final assignments and after them (probe c11.history)."""
+    h = dict(helper=rng.random() < 0.5, steps=[])
+    steps = h["steps"]
+    clay = cd["cop"] == "clayton"
+
+    def other():
+        o = draw_cop(rng)
+        while o["cop"] != "clayton":
+            o = draw_cop(rng)
+        return o["theta"], o["eta"]
+
+    def evals(cur, lo, hi):
+        for _ in range(rng.randint(lo, hi)):
+            steps.append(draw_eval(rng, cd, cur))
+
+    def extras(cur):
+        k = rng.random()
+        if k < 0.15 and clay:
+            steps.append(["reject", rng.choice([0.0, -1.0, -cur[0]])])
+        elif k < 0.35:
+            steps.append(["sibling", rng.random() < 0.5, list(other()), draw_eval(rng, cd, (1.0, 0.5))])
+        elif k < 0.45:
+            steps.append(["copy", rng.choice(["deepcopy", "pickle"])])
+
+    cur = None
+    if clay:
+        if h["helper"] and rng.random() < 0.3:
+            h["init"] = "default"
+            cur = [0.7, 0.3]          # only used to choose evaluation kinds; `play` reads the actual defaults from the object
+        else:
+            t0, e0 = other()
+            k = rng.random()          # sometimes only one of the two parameters differs from the target
+            cur = [cd["theta"] if k < 0.2 else t0, cd["eta"] if 0.2 <= k < 0.4 else e0]
+            h["init"] = list(cur)
+    evals(cur, 0, 3 if long else 1)
+    for _ in range(rng.randint(0, 3) if long else rng.choice([0, 0, 1])):
+        extras(cur)
+        if clay:
+            t1, e1 = other()
+            for name in rng.sample(["theta", "eta"], rng.choice([1, 2, 2])):
+                steps.append(["set", name, t1 if name == "theta" else e1])
+                cur[0 if name == "theta" else 1] = steps[-1][2]
+        evals(cur, 1 if long else 0, 3 if long else 1)
+    extras(cur)
+    if clay:
+        names = rng.sample(["theta", "eta"], 2)
+        for j, name in enumerate(names):
+            tgt = cd[name]
+            if cur[0 if name == "theta" else 1] == tgt and rng.random() < 0.5 and h["init"] != "default":
+                continue               # already at the target value: the assignment is optional (never with the library's defaults)
+            steps.append(["set", name, tgt])
+            cur[0 if name == "theta" else 1] = tgt
+            if j == 0 and long:
+                evals(cur, 0, 2)
+    if long:
+        evals(cur, 6, 10)
+    return h
+
+
+def with_hist(rng, cd, p=0.5):
+    """the descriptor itself (fresh object) or, with probability p, the same copula reached through another history"""
+    return dict(cd, hist=draw_hist(rng, cd)) if rng.random() < p else cd
+
+
 # ------------------------------------------------------------------------------------------------ C: implementation vs M
 @guarded("c11.grounded")
 def p_model_copula(ctx, inp):
@@ -213,7 +406,7 @@ def p_model_margin(ctx, inp):
 @guarded("c11.cond_distribution")
 def p_model_cond(ctx, inp):
     eta, e, x = inp["eta"], inp["e"], inp["x"]
-    cop = ClaytonCopula(theta=1.0, eta=eta)
+    cop = make(dict(cop="clayton", theta=1.0, eta=eta, hist=inp.get("hist")))
     py = float(cop.conditional_distribution(e, np.array([x]))[0])
     lean = lean_val(ctx.lean(f"cond {w(eta)} {w(e)} {w(x)}"))
     ctx.count("c11.model.cond", inp)
@@ -298,7 +491,7 @@ def p_clayton_formula(ctx, inp):
     import mpmath as mp
     mp.mp.dps = 50
     theta, eta, us = mp.mpf(inp["theta"]), mp.mpf(inp["eta"]), inp["us"]
-    cop = ClaytonCopula(theta=inp["theta"], eta=inp["eta"])
+    cop = make(dict(cop="clayton", theta=inp["theta"], eta=inp["eta"], hist=inp.get("hist")))
     v = call(cop, us)
     ref = mp_clayton(theta, eta, [mp.mpf(u) for u in us])
     ctx.count("c11.clayton_formula", inp, branch=f"d{len(us)}")
@@ -327,7 +520,7 @@ def p_cond_distribution(ctx, inp):
     """x -> F_eps(x) is a distribution function: values in [0,1], non-decreasing, limits 0 and 1; it is the eps-derivative
     of F(eps,x) - F(eps,-inf); the stated inverse inverts it"""
     theta, eta, e, xs = inp["theta"], inp["eta"], inp["e"], sorted(inp["xs"])
-    cop = ClaytonCopula(theta=theta, eta=eta)
+    cop = make(dict(cop="clayton", theta=theta, eta=eta, hist=inp.get("hist")))
     cls = dict(copula="clayton", eta_boundary=eta in (0.0, 1.0))
     vals = [cond(cop, e, x) for x in xs]
     ctx.count("c11.cond_distribution", inp)
@@ -374,12 +567,57 @@ def p_cond_distribution(ctx, inp):
                 return
 
 
+def agree(x, y, scale=0.0):
+    if math.isnan(x) or math.isnan(y):
+        return math.isnan(x) and math.isnan(y)
+    if math.isinf(x) or math.isinf(y):
+        return x == y
+    return abs(x - y) <= 1e-12 * max(abs(x), abs(y), scale)
+
+
+@guarded("c11.history")
+def p_history(ctx, inp):
+    """the copula is a function of its public parameters: at every evaluation of a construction history (parameters assigned
+    on the live object, evaluations in between, helper factories, sibling objects, copies) the value is the one of a freshly
+    constructed object having the parameters assigned so far, and (Clayton, finite non-zero arguments) the one of formula (7)"""
+    import mpmath as mp
+    mp.mp.dps = 50
+    cd = inp["cop"]
+    bad = []
+
+    def on_eval(st, v, params):
+        if bad:
+            return
+        fresh = construct(cd["cop"], False, list(params) if params else None)
+        ref = evaluate(fresh, st)
+        scale = 0.0
+        if st[0] == "vol":
+            vals = [call(fresh, c) for c in corners(st[1], st[2])]
+            scale = sum(abs(x) for x in vals if math.isfinite(x))
+        if not agree(v, ref, scale):
+            bad.append({"what": "the value on an object whose parameters were assigned after construction differs from the value on a "
+                                "freshly constructed object with the same parameters (at most one of them is the copula of these parameters)",
+                        "step": st, "parameters": params, "after_history": v, "fresh": ref})
+            return
+        if cd["cop"] == "clayton" and st[0] == "call" and all(x != 0 and math.isfinite(x) for x in st[1]):
+            f7 = mp_clayton(mp.mpf(params[0]), mp.mpf(params[1]), [mp.mpf(x) for x in st[1]])
+            if not abs(mp.mpf(v) - f7) <= mp.mpf(10) ** -11 * abs(f7) + mp.mpf(10) ** -300:
+                bad.append({"what": "Clayton copula differs from formula (7) at the parameters assigned on the live object",
+                            "step": st, "parameters": params, "impl": v, "formula": float(f7)})
+
+    play(cd, on_eval)
+    h = cd["hist"]
+    ctx.count("c11.history", inp, branch=f"{cd['cop']}:{'helper' if h.get('helper') else 'class'}")
+    if bad:
+        ctx.fail("oracle", "c11.history", inp, bad[0], cls=dict(copula=cd["cop"], history=True))
+
+
 PROBES = {"c11.model.copula": p_model_copula, "c11.model.volume": p_model_volume, "c11.model.margin": p_model_margin,
           "c11.model.cond": p_model_cond, "c11.model.mixed": p_model_cond, "c11.grounded": p_grounded,
           "c11.volume_nonneg": p_volume_nonneg, "c11.margin_identity": p_margin_identity,
           "c11.clayton_formula": p_clayton_formula, "c11.mixed_derivative": p_clayton_formula,
           "c11.cond_distribution": p_cond_distribution, "c11.cond_is_derivative": p_cond_distribution,
-          "c11.cond_inverse": p_cond_distribution}
+          "c11.cond_inverse": p_cond_distribution, "c11.history": p_history}
 
 
 # ------------------------------------------------------------------------------------------------ generation
@@ -394,7 +632,7 @@ def run(ctx, oracle_only=False, factor=1):
     for rep in range(4 * n):
         for d in (2, 3):
             for pat in sign_patterns(d):
-                cd = draw_cop(rng, exact=(rep % 2 == 0))
+                cd = with_hist(rng, draw_cop(rng, exact=(rep % 2 == 0)))
                 a, b = draw_rect(rng, d, pat)
                 inp = dict(cop=cd, a=a, b=b)
                 p_volume_nonneg(ctx, inp)
@@ -406,6 +644,7 @@ def run(ctx, oracle_only=False, factor=1):
         cd = draw_cop(rng, exact=rng.random() < 0.5)
         if cd["cop"] == "clayton" and rng.random() < 0.5:
             cd["eta"] = rng.choice([0.0, 1.0])
+        cd = with_hist(rng, cd)
         a, b = [], []
         for i in range(d):
             k = rng.choice(["lo", "hi", "both"])
@@ -421,7 +660,7 @@ def run(ctx, oracle_only=False, factor=1):
     for rep in range(12 * n):
         for d in (2, 3):
             for signs in itertools.product([-1, 1], repeat=d):
-                cd = draw_cop(rng, exact=(rep % 2 == 0))
+                cd = with_hist(rng, draw_cop(rng, exact=(rep % 2 == 0)))
                 us = [draw_val(rng, s) for s in signs]
                 if lean_name(cd) and not oracle_only:
                     p_model_copula(ctx, dict(cop=cd, us=us))
@@ -441,7 +680,10 @@ def run(ctx, oracle_only=False, factor=1):
             us = [draw_val(rng, p_inf=0, p_zero=0.03) for _ in range(d)]
             e, x = draw_val(rng, p_inf=0, p_zero=0.05), draw_val(rng, p_inf=0, p_zero=0)
             eta = rng.choice([0.0, 1.0, rng.randint(1, 63) / 64, rng.uniform(0, 1)])
-            p_model_cond(ctx, dict(eta=eta, e=e, x=x, us=us))
+            inp = dict(eta=eta, e=e, x=x, us=us)
+            if rng.random() < 0.5:
+                inp["hist"] = draw_hist(rng, dict(cop="clayton", theta=1.0, eta=eta))
+            p_model_cond(ctx, inp)
     # --- Clayton general theta: formula (7), mixed derivative (mpmath), conditional distribution and its inverse
     for rep in range(ctx.n(120, 1200) * factor):
         d = rng.choice([2, 3])
@@ -450,7 +692,10 @@ def run(ctx, oracle_only=False, factor=1):
             cd = draw_cop(rng)
         m = math.exp(rng.uniform(math.log(1e-2), math.log(1e2)))
         us = [rng.choice([-1, 1]) * m * math.exp(rng.uniform(-2, 2)) for _ in range(d)]
-        p_clayton_formula(ctx, dict(theta=cd["theta"], eta=cd["eta"], us=us))
+        inp = dict(theta=cd["theta"], eta=cd["eta"], us=us)
+        if rng.random() < 0.5:
+            inp["hist"] = draw_hist(rng, cd)
+        p_clayton_formula(ctx, inp)
     for rep in range(ctx.n(200, 2000) * factor):
         cd = draw_cop(rng)
         while cd["cop"] != "clayton":
@@ -458,7 +703,17 @@ def run(ctx, oracle_only=False, factor=1):
         theta = min(max(cd["theta"], 0.3), 3.0)
         e = rng.choice([-1, 1]) * math.exp(rng.uniform(math.log(1e-2), math.log(1e2)))
         xs = [rng.choice([-1, 1]) * abs(e) * math.exp(rng.uniform(-3.5, 3.5)) for _ in range(6)] + [0.0]
-        p_cond_distribution(ctx, dict(theta=theta, eta=cd["eta"], e=e, xs=xs))
+        inp = dict(theta=theta, eta=cd["eta"], e=e, xs=xs)
+        if rng.random() < 0.5:
+            inp["hist"] = draw_hist(rng, dict(cop="clayton", theta=theta, eta=cd["eta"]))
+        p_cond_distribution(ctx, inp)
+    # --- construction histories: parameters assigned on the live object (from other legal values, helper factories included),
+    #     evaluations interleaved with the assignments, every evaluation against a fresh object at the parameters assigned so far
+    for rep in range(ctx.n(400, 4000) * factor):
+        cd = draw_cop(rng, exact=rng.random() < 0.2)
+        if cd["cop"] != "clayton" and rng.random() < 0.6:
+            continue
+        p_history(ctx, dict(cop=dict(cd, hist=draw_hist(rng, cd, long=True))))
 
 
 def search(ctx):
